@@ -33,7 +33,7 @@ def run(chk, repo, tier):
     rescaled_copy_rule(chk, repo, 'C13-c')
     chk.clause('C13-d', 'no internal call relies on the hard-coded default wavelength unit', 5)
     chk.clause('C13-e', 'the result is a new Spectrum; scalar/vector operands (numpy scalars included) keep the wavelength grid', 5)
-    chk.clause('C13-f', 'common grid built symmetrically; both operands sampled and filled the same way, each through its own class', 4)
+    chk.clause('C13-f', 'common grid built symmetrically in the first operand\'s unit; both operands sampled and filled the same way, each through its own class', 5)
     chk.clause('C13-g', 'operand samples are taken on the closed range of the operand; min sampling over both operands', 2)
     chk.not_decided += ['interpolated values', 'grid construction numerics']
 
@@ -307,6 +307,11 @@ def run(chk, repo, tier):
         chk.ob('C13-f', 'T-class', fi.key, f'each operand is sampled through its own class (copies keep the class) [{tag}]', not rebuilt,
                ('sampled object: ' + '; '.join(rebuilt) + ' - a Blackbody operand would be interpolated from its table instead of '
                 'evaluated by its own sample()') if rebuilt else 'the operands or copies of them', fi.loc(smp[1].node))
+        # the result is labelled with the first operand's units (_ufunc): the common grid therefore has to be in that unit -
+        # the first operand takes part as it is, only the second one is ever converted
+        chk.ob('C13-f', 'D-flow', fi.key, f'the first operand is sampled as it is (the grid is in its unit, which labels the result) [{tag}]',
+               o1 == S('s1'), '' if o1 == S('s1') else f'the first operand is replaced by {fmt(o1)[:60]} before sampling: the grid is in the '
+               "other operand's unit while the result carries the first operand's unit label", fi.loc(smp[0].node))
         # when the second operand was converted, nothing of the common grid may come from its unconverted wavelengths
         if o2 != S('s2'):
             raw = {nf.attr(S('s2'), 'wave').single_atom(), nf.attr(S('s2'), '_wave').single_atom()}
